@@ -307,6 +307,69 @@ class ThreadedSimLoop(SimLoop):
         h = None
 
 
+class BatonLock:
+    """Stands in for threading.Lock / RLock inside bellows/thread.py (only a changed tree has one there). A real lock would block a thread
+    behind the scheduler's back while the holder is parked at a pre-emption point - a deadlock of the harness, not of bellows. This one hands the
+    baton to the holder until the lock is free, so the interleaving stays a function of the tape."""
+
+    def __init__(self, sched, reentrant=False):
+        self.sched, self.reentrant = sched, reentrant
+        self.owner, self.depth = None, 0
+
+    def _me(self):
+        tid = threading.get_ident()
+        for n, i in self.sched.ident.items():
+            if i == tid:
+                return n
+        return None
+
+    def acquire(self, blocking=True, timeout=-1):
+        me = self._me()
+        if self.reentrant and self.owner is not None and self.owner == me:
+            self.depth += 1
+            return True
+        while self.owner is not None:
+            if not blocking or me is None:
+                return False
+            if self.owner == me:
+                raise RuntimeError("BatonLock: a non-reentrant lock acquired twice by the same thread (self-deadlock in the code under test)")
+            with self.sched.cv:
+                if self.sched.abort:
+                    raise Abort()
+                self.sched._give(me, self.owner)
+        self.owner, self.depth = me, 1
+        return True
+
+    def release(self):
+        self.depth -= 1
+        if self.depth <= 0:
+            self.owner, self.depth = None, 0
+
+    def locked(self):
+        return self.owner is not None
+
+    def __enter__(self):
+        self.acquire()
+        return self
+
+    def __exit__(self, *a):
+        self.release()
+
+
+class _ThreadingShim:
+    def __init__(self, sched, real):
+        self._sched, self._real = sched, real
+
+    def Lock(self):
+        return BatonLock(self._sched)
+
+    def RLock(self):
+        return BatonLock(self._sched, reentrant=True)
+
+    def __getattr__(self, name):
+        return getattr(self._real, name)
+
+
 class Policy(asyncio.DefaultEventLoopPolicy):
     def __init__(self, sched: Baton):
         super().__init__()
@@ -337,6 +400,11 @@ sys.unraisablehook = _quiet_unraisable
 def run_threaded(tape, main_factory, preempt_den=6):
     """Run coroutine main_factory(sched, loop) on loop 'M' in the calling thread. Returns (outcome, value, sched)."""
     sched = Baton(tape, preempt_den=preempt_den)
+    import bellows.thread as _bt
+
+    _real_threading = _bt.__dict__.get("threading")
+    if _real_threading is not None and not isinstance(_real_threading, _ThreadingShim):
+        _bt.threading = _ThreadingShim(sched, _real_threading)  # (the pristine module does not import threading at all)
     old_policy = asyncio.get_event_loop_policy()
     asyncio.set_event_loop_policy(Policy(sched))
     sched.adopt_main("M")
@@ -361,6 +429,8 @@ def run_threaded(tape, main_factory, preempt_den=6):
                 raise
     finally:
         sys.settrace(None)
+        if _real_threading is not None:
+            _bt.threading = _real_threading if not isinstance(_real_threading, _ThreadingShim) else _real_threading._real
         sched.shutdown()
         loop.recording = False
         try:
